@@ -282,7 +282,17 @@ func runDo(c *core.Ctx) (*ssa.Function, ssa.CallInstruction) {
 		if core.RelPkg(fn) != "internal/run" || fn.Parent() != nil {
 			continue
 		}
-		sev := an.FlatCalls(fn, flatDepth, func(_ ssa.CallInstruction, t *ssa.Function) bool { return t == setup })
+		// the setup runner itself, or a method of internal/workers around it (a retry loop, a timing wrapper)
+		reachesSetup := func(t *ssa.Function) bool {
+			if t == setup {
+				return true
+			}
+			if t == nil || core.RelPkg(t) != "internal/workers" || t.Blocks == nil {
+				return false
+			}
+			return len(an.FlatCalls(t, flatDepth, func(_ ssa.CallInstruction, g *ssa.Function) bool { return g == setup })) > 0
+		}
+		sev := an.FlatCalls(fn, flatDepth, func(_ ssa.CallInstruction, t *ssa.Function) bool { return reachesSetup(t) })
 		lev := an.FlatCalls(fn, flatDepth, func(_ ssa.CallInstruction, t *ssa.Function) bool { return t == loop })
 		if len(sev) == 0 || len(lev) == 0 {
 			continue
